@@ -175,14 +175,13 @@ func runPlug(rec *Rec, sc *PlugScenario, n int) {
 	case <-time.After(3 * time.Second):
 		rec.Emit("CallHang")
 	}
-	last := rec.Count()
-	for i := 0; i < 20; i++ {
-		time.Sleep(300 * time.Microsecond)
-		if now := rec.Count(); now == last && i >= 2 {
-			break
-		} else {
-			last = now
-		}
+	// the server's post-write hooks run after the caller has its reply: a graceful close of both peers waits
+	// for every running handler context, so everything the exchange causes is recorded when it returns
+	cd := make(chan struct{})
+	go func() { cli.Close(); srv.Close(); close(cd) }()
+	select {
+	case <-cd:
+	case <-time.After(2 * time.Second):
 	}
 	rec.Emit("Quiesce")
 }
